@@ -95,7 +95,7 @@ def verif_fingerprint():
 # --------------------------------------------------------------------------
 # Go harness, built inside /repo's module through -overlay (adds nothing to /repo)
 
-def write_overlay():
+def write_overlay(gen_root=None):
     """Map /verif/harness/zzverif/** -> /repo/internal/zzverif/**,
     /verif/harness/hook/*.go -> /repo/*.go (package picobuf, //go:build verif)."""
     repl = {}
@@ -103,7 +103,7 @@ def write_overlay():
     for p in walk(zz, (".go",)):
         rel = os.path.relpath(p, zz)
         repl[os.path.join(REPO, "internal", "zzverif", rel)] = p
-    gen = os.path.join(WORK, "gen")
+    gen = gen_root or os.path.join(WORK, "gen")
     if os.path.isdir(gen):
         for p in walk(gen, (".go",)):
             rel = os.path.relpath(p, gen)
@@ -113,19 +113,19 @@ def write_overlay():
         rel = os.path.relpath(p, hk)
         repl[os.path.join(REPO, rel)] = p
     os.makedirs(WORK, exist_ok=True)
-    path = os.path.join(WORK, "overlay.json")
+    path = os.path.join(WORK, "overlay.json" if gen_root is None else "overlay-%s.json" % os.path.basename(os.path.dirname(gen_root.rstrip("/"))))
     with open(path, "w") as f:
         json.dump({"Replace": repl}, f, indent=1)
     return path
 
 
-def go_build(pkg, out, tags="verif", overlay=True, race=False, extra=None):
+def go_build(pkg, out, tags="verif", overlay=True, race=False, extra=None, gen_root=None):
     os.makedirs(os.path.dirname(out), exist_ok=True)
     cmd = ["go", "build", "-o", out]
     if tags:
         cmd += ["-tags", tags]
     if overlay:
-        cmd += ["-overlay", write_overlay()]
+        cmd += ["-overlay", write_overlay(gen_root)]
     env = dict(GOENV)
     if race:
         cmd += ["-race"]
